@@ -141,7 +141,7 @@ def check(ctx, rep):
     else:
         b = util.bexpr(ctx, pse, pse.ret)
         want = ("H", (("text", P(1)), P(2), P(3), P(4)))
-        rep.check(b == want, "transcript", "srp_internal::calculate_reconnect_proof", "sha1", show_b(b), "expected %s, found %s" % (show_b(want), show_b(b)), pse.body.loc())
+        rep.check(b == util.cb(want), "transcript", "srp_internal::calculate_reconnect_proof", "sha1", show_b(b), "expected %s, found %s" % (show_b(want), show_b(b)), pse.body.loc())
     # ---- accessors return the role fields
     for fn, role in (("server::SrpServer::reconnect_challenge_data", "challenge"), ("server::SrpServer::session_key", "K")):
         ase = ctx.wrap.run(fn)
